@@ -6,7 +6,9 @@ META = {
     "explanation": (
         "Abstract interpretation of the JSON validator's source (visit_value, visit_range, seq_match_*, validate) on "
         "representative points of the order-type domain of (document, literal[, bounds]) and on scripted callee outcomes, "
-        "compared with RFC 8610 sections 2.2.2.1, 3.2, 3.8; plus exhaustiveness of the ControlOperator/Type2 dispatch. "
+        "compared with RFC 8610 sections 2.2.2.1, 3.2, 3.8; visit_identifier on every prelude name x scalar document kind against "
+        "RFC 8610 Appendix D (classification predicates interpreted from their source); plus exhaustiveness of the "
+        "ControlOperator/Type2 dispatch. "
         "Decides these necessary conditions for all inputs; the full verdict relation over all schemas x documents is not decided."),
     "assumptions": ["serde_json::Number::as_i64/as_u64/as_f64 behave as documented (modelled)",
                     "the abstract interpreter models the Rust subset used in these functions; anything else is reported as incomplete"],
@@ -22,3 +24,5 @@ def run(ctx):
     ctx.guarded("C01.ctrlarms", lambda c: cv.arms_rule(c, "C01", "json"))
     ctx.guarded("C01.root", lambda c: cv.root_rule(c, "C01", "json"))
     ctx.guarded("C01.ctrlrestore", lambda c: cv.ctrlrestore_rule(c, "C01", "json"))
+    import prelude_scalar as ps
+    ctx.guarded("C01.prelude", lambda c: ps.rule(c, "C01", "json"))
